@@ -191,3 +191,31 @@ Lemma listing_respects_causality es i j a b :
   nth_error (sort_entries es) i = Some a -> nth_error (sort_entries es) j = Some b ->
   (e_clock a < e_clock b)%N -> i < j.
 Proof. apply sorted_clock_order. apply sort_sorted. Qed.
+
+(* ---------- entries that do not open ---------- *)
+
+(* skipping the entries that do not open changes nothing else: with nothing to skip it is the plain
+   listing; what is handed out is a sub-list, in the same order, of the plain listing, holds every
+   entry of it that opens and none that does not *)
+Lemma list_open_nothing_to_skip es s u r : list_open_events es s u r [] = list_events es s u r.
+Proof.
+  unfold list_open_events. destruct (list_events es s u r) as [l|]; [|reflexivity]. cbn. f_equal.
+  induction l as [|x l IH]; [reflexivity|]. cbn. rewrite IH. reflexivity.
+Qed.
+
+Lemma list_open_exact es s u r skip l l' :
+  list_events es s u r = Some l -> list_open_events es s u r skip = Some l' ->
+  forall i, In i l' <-> (In i l /\ ~ In i skip).
+Proof.
+  unfold list_open_events. intros -> H. cbn in H. injection H as <-. intros i.
+  rewrite filter_In. split; intros [H1 H2]; (split; [exact H1|]).
+  - intros Hin. rewrite negb_true_iff in H2.
+    assert (existsb (N.eqb i) skip = true) by (apply existsb_exists; exists i; split; [exact Hin | apply N.eqb_refl]).
+    congruence.
+  - apply negb_true_iff. destruct (existsb (N.eqb i) skip) eqn:E; [|reflexivity].
+    apply existsb_exists in E. destruct E as [x [Hx Hex]]. apply N.eqb_eq in Hex. subst. contradiction.
+Qed.
+
+Lemma list_open_fails_like_plain es s u r skip :
+  list_open_events es s u r skip = None <-> list_events es s u r = None.
+Proof. unfold list_open_events. destruct (list_events es s u r); cbn; split; congruence. Qed.
